@@ -682,6 +682,30 @@ fn clicheck_mode(in_path: &str, out_path: &str) {
     }
 }
 
+/// EdgeImpl.tla: one line per request `{"classes": [[[lo, hi], ...], ...]}`; the reply is what the real helpers of
+/// the graph module (impl_with_cmp, count_ops, to_table, can_error, merge) compute, through the hook.
+fn edgeimpl_mode(inp: &str, outp: &str) {
+    let text = std::fs::read_to_string(inp).unwrap();
+    let mut f = std::fs::File::create(outp).unwrap();
+    for line in text.lines() {
+        if line.trim().is_empty() {
+            continue;
+        }
+        let v: serde_json::Value = serde_json::from_str(line).unwrap();
+        let classes: Vec<Vec<(u8, u8)>> = v["classes"]
+            .as_array()
+            .unwrap()
+            .iter()
+            .map(|c| c.as_array().unwrap().iter().map(|r| (r[0].as_u64().unwrap() as u8, r[1].as_u64().unwrap() as u8)).collect())
+            .collect();
+        let r = std::panic::catch_unwind(|| logos_codegen::verif::edge_impl(&classes));
+        match r {
+            Ok(j) => writeln!(f, "{}", j).unwrap(),
+            Err(_) => writeln!(f, "{{\"panic\":true}}").unwrap(),
+        }
+    }
+}
+
 fn main() {
     let args: Vec<String> = std::env::args().collect();
     match args.get(1).map(|s| s.as_str()) {
@@ -689,6 +713,7 @@ fn main() {
         Some("hash") => hash_mode(&args[2], &args[3], args[4].parse().unwrap()),
         Some("strip") => strip_mode(&args[2], &args[3]),
         Some("clicheck") => clicheck_mode(&args[2], &args[3]),
+        Some("edgeimpl") => edgeimpl_mode(&args[2], &args[3]),
         Some("extract") => {
             let mut f = std::fs::File::create(&args[2]).unwrap();
             for v in extract::extract(&args[3..]) {
